@@ -86,6 +86,14 @@ SIG = {
                                   args={"n": "int:n", "p": "int:p", "n_params_per_variable": "int:npv",
                                         "scale": "real:scale"},
                                   coq=["n", "p", "npv", "scale"], tuple=("alpha", "beta")),
+    # the per-j curve of the intermediate penalty: a closure inside intermediate_mvcapa_penalty; SciPy's chi-square quantile / density are oracles
+    "intermediate_mvcapa_penalty.penalty_func": dict(
+        file="skchange/anomaly_detectors/mvcapa.py",
+        args={"j": "int:j"},
+        closure={"n": "int:n", "p": "int:p", "n_params_per_variable": "int:npv", "scale": "real:scale"},
+        oracle_attr_calls={"chi2.ppf": "c_j", "chi2.pdf": "f_j"},
+        coq=["n", "p", "npv", "scale", "j", "c_j", "f_j"], kinds={"c_j": "R", "f_j": "R"},
+        name="intermediate_penalty_curve"),
     "PELT.get_default_penalty": dict(file="skchange/change_detectors/pelt.py",
                                      args={"n": "int:n", "p": "int:p"}, coq=["n", "p"],
                                      name="pelt_default_penalty"),
@@ -110,7 +118,7 @@ def _find_function(tree, qual):
     body = tree.body
     node = None
     for i, nm in enumerate(parts):
-        want = ast.ClassDef if i < len(parts) - 1 else ast.FunctionDef
+        want = (ast.ClassDef, ast.FunctionDef) if i < len(parts) - 1 else ast.FunctionDef
         found = [n for n in body if isinstance(n, want) and n.name == nm]
         if len(found) != 1:
             raise Unsupported(f"{qual}: definition not found exactly once")
@@ -149,7 +157,7 @@ def to_ir(fn_name, repo="/repo", _cache={}):
         if isinstance(n, ast.Name):
             if n.id in env:
                 return env[n.id]
-            role = sig["args"].get(n.id)
+            role = sig["args"].get(n.id) or sig.get("closure", {}).get(n.id)
             if role is None:
                 raise Unsupported(f"{fn_name}: free name {n.id}")
             k, v = role.split(":")
@@ -221,6 +229,11 @@ def to_ir(fn_name, repo="/repo", _cache={}):
                         and isinstance(a1, ast.Constant) and a1.value == 1):
                     return ex(f.value)
                 raise Unsupported(f"{fn_name}: reshape other than (-1, 1)")
+            if isinstance(f, ast.Attribute) and isinstance(f.value, ast.Name) and f"{f.value.id}.{f.attr}" in sig.get("oracle_attr_calls", {}):
+                # the arguments must still be translatable expressions of the declared kinds (so that a changed call shape is noticed)
+                for a_ in n.args:
+                    ex(a_)
+                return ("real", ("var", sig["oracle_attr_calls"][f"{f.value.id}.{f.attr}"]))
             if isinstance(f, ast.Attribute) and isinstance(f.value, ast.Name) and f.value.id == "np":
                 if f.attr in NPFUN and len(n.args) == 1:
                     k, a = ex(n.args[0])
@@ -436,7 +449,7 @@ def pyeval(ir, env):
 def _binder(sig, v, dom):
     num = "R" if dom == "R" else "Q"
     kinds = sig.get("kinds", {})
-    for role in sig["args"].values():
+    for role in list(sig["args"].values()) + list(sig.get("closure", {}).values()):
         k, nm = role.split(":")
         if nm == v:
             if k in ("idx", "int"):
